@@ -170,6 +170,24 @@ def _run(ck, m):
     lb, lsw = repl.fanout_loop(m)
     osw = m.request_switch(lb)
     oplog_arms = set()
+    # what a node applies it logs, whatever its role: the node that is secondary today answers the catch-up queries after a failover
+    from nl import locks as _locks5
+    role_dep = []
+    for x in sorted(lb.reachable()):
+        t = lb.term(x)
+        if t['k'] != 'call' or 'op_log' not in callee(t) or is_log(t):
+            continue
+        for sw_ in _locks5.controlling_switches(lb, x):
+            if lsw and sw_ == lsw[0]:
+                continue
+            calls_, _pp = _locks5.backward_slice(lb, lb.term(sw_)['o'], control=True)
+            for c_ in calls_:
+                if callee(lb.term(c_)).split('::')[-1] in ('get_role', 'is_primary', 'is_secoundary', 'is_eligible'):
+                    role_dep.append('%s decides the append at %s' % (callee(lb.term(c_)).split('::')[-1], lb.loc(x)))
+    ck.ob('C05.c', short(lb.id), 'oplog-append-whatever-the-role', not role_dep,
+          'no test of the node role decides whether an applied operation is logged' if not role_dep else
+          'the replication loop logs an operation only in some roles (%s): a node that applied the writes as a secondary and is primary after a '
+          'failover has no record of them, a rejoining node catches up with nothing' % sorted(set(role_dep))[:3], '%s:%s' % (lb.file, lb.line))
     if osw:
         for v, tb in osw[1].items():
             if tb == osw[2]:
